@@ -803,18 +803,33 @@ func runC19CLI(t *sim.T, c *c19Case) *sim.Violation {
 			ref.items = append(ref.items, r)
 		}
 	}
-	var jr *journal.Journal
-	pv, _ := guard(func() { jr = journal.BuildJournal(ref, time.Unix(0, 0), time.Unix(1<<40, 0)) })
-	if pv != nil {
-		return nil // C05's business
+	// the command's window is [1970-01-01, the moment it runs]: the reference uses the same window, taken
+	// just before and just after the sub-process; if the two references differ (a trip starts in
+	// between) the comparison is skipped
+	export := func(end time.Time) (*journal.CsvExport, bool) {
+		src := &sliceSource{items: ref.items}
+		var jr *journal.Journal
+		pv, _ := guard(func() { jr = journal.BuildJournal(src, time.Unix(0, 0), end) })
+		if pv != nil {
+			return nil, false // C05's business
+		}
+		e, err := jr.ExportToCsv()
+		if err != nil {
+			return nil, false
+		}
+		return e, true
 	}
-	want, err := jr.ExportToCsv()
-	if err != nil {
+	want, ok := export(time.Now())
+	if !ok {
 		return nil
 	}
 	cmd := exec.Command(cli, "journal", "-o", outDir, d.dir)
 	out, err := cmd.CombinedOutput()
 	t.Probe("cli-run")
+	if want2, ok2 := export(time.Now()); !ok2 || !bytes.Equal(want.TripsCsv, want2.TripsCsv) || !bytes.Equal(want.StopTimesCsv, want2.StopTimesCsv) {
+		t.Probe("cli-window-moved-skip")
+		return nil
+	}
 	if err != nil {
 		return &sim.Violation{Class: "cli", Signature: "C19:cli-failed", Detail: fmt.Sprintf("gtfs journal failed on a directory with %d entries: %v: %s", len(d.ents), err, sim.Clip(string(out), 400))}
 	}
